@@ -1,5 +1,6 @@
 // ---- errors.rs: the error type as an opaque enum; constructors return the named variant ----
 // (error *text* is not part of any property; the payload structs are dropped)
+#[derive(Debug)]
 pub enum DaachorseError { InvalidArgument, DuplicatePattern, AutomatonScale, InvalidConversion }
 pub type Result<T, E = DaachorseError> = core::result::Result<T, E>;
 impl DaachorseError {
